@@ -357,6 +357,8 @@ def execute(spec):
         os.replace = _xdev(real_replace)
     saved_argv = sys.argv
     sys.argv = argv
+    saved_cwd = os.getcwd()
+    os.chdir(sb)  # ddSMT writes .simp-N.diff / profiles to the cwd
     import multiprocessing
     saved_ssm = multiprocessing.set_start_method
     multiprocessing.set_start_method = lambda *a, **k: None
@@ -413,6 +415,7 @@ def execute(spec):
         if spec.get('jump_budget'):
             _enable_jump_budget(0)
         os.rename, os.replace = real_rename, real_replace
+        os.chdir(saved_cwd)
         sys.argv = saved_argv
         multiprocessing.set_start_method = saved_ssm
         atexit.register = real_register
